@@ -188,4 +188,240 @@ theorem encode_redirects (s0 : St) (h0 : StInv s0) (j : Nat) (x : Item) (hx : s0
     rw [hd, hu]
   · exact .inr hp
 
+/-! ### the same frame for the global and the memory vector -/
+
+/-- `op` does not address the entry `x` stored at position `j` of the vector `sp` -/
+def Spares (sp : Sp) (j : Nat) (x : Item) (op : Op) : Prop :=
+  match sp with
+  | .F => SparesF j x op
+  | .G => (∀ id, op = .deleteGlobal id → id ≠ j) ∧ op ≠ .encode
+  | .M => (∀ id, op = .deleteMem id → id ≠ j) ∧ op ≠ .encode
+
+def markDel (x : Space) (id : Nat) : Space :=
+  { x with items := setItem x.items id (fun (it : Item) => { it with del := true }), recalc := true }
+
+theorem deleteEntity_space (s : St) (sp' : Sp) (id : Nat) (sp : Sp) :
+    (deleteEntity s sp' id).1.space sp = (s.setSpace sp' (markDel (s.space sp') id)).space sp := by
+  unfold deleteEntity
+  simp only []
+  split
+  · rfl
+  · split
+    · split
+      · cases sp <;> rfl
+      · rfl
+    · rfl
+
+theorem deleteEntity_slot (s : St) (sp' : Sp) (id : Nat) (sp : Sp) (j : Nat) (h : sp' = sp → id ≠ j) :
+    ((deleteEntity s sp' id).1.space sp).items[j]? = (s.space sp).items[j]? := by
+  rw [deleteEntity_space]
+  cases sp' <;> cases sp <;> simp only [St.setSpace, St.space, markDel] <;> first | rfl | exact setItem_ne _ _ _ _ (h rfl)
+
+theorem localToImport_other (s : St) (id uid : Nat) : (localToImport s id uid).1.g = s.g ∧ (localToImport s id uid).1.m = s.m := by
+  unfold localToImport
+  split
+  · exact ⟨rfl, rfl⟩
+  · split
+    · exact ⟨rfl, rfl⟩
+    · have hg := deleteEntity_space s .F id .G
+      have hm := deleteEntity_space s .F id .M
+      simp only [St.space, St.setSpace, markDel] at hg hm
+      dsimp only
+      split
+      · exact ⟨hg, hm⟩
+      · simp only [addImport, St.space, St.setSpace]; exact ⟨hg, hm⟩
+
+theorem replaceImport_other (s : St) (k uid : Nat) (c : List Ref) :
+    (replaceImport s k uid c).1.g = s.g ∧ (replaceImport s k uid c).1.m = s.m := by
+  unfold replaceImport
+  split
+  · exact ⟨rfl, rfl⟩
+  · split
+    · exact ⟨rfl, rfl⟩
+    · split
+      · exact ⟨rfl, rfl⟩
+      · rename_i fid _
+        have hg := deleteEntity_space s .F fid .G
+        have hm := deleteEntity_space s .F fid .M
+        simp only [St.space, St.setSpace, markDel] at hg hm
+        dsimp only
+        split
+        · exact ⟨hg, hm⟩
+        · exact ⟨hg, hm⟩
+
+theorem step_slotG (s : St) (op : Op) (j : Nat) (x : Item) (hx : s.g.items[j]? = some x) (hs : Spares .G j x op) :
+    (step s op).1.g.items[j]? = some x := by
+  cases op with
+  | addLocalFunc uid sites => exact hx
+  | addImportFunc uid => simpa [step, addImportFunc, addImport, St.space, St.setSpace, Space.push] using hx
+  | deleteFunc id => simp only [step]; have := deleteEntity_slot s .F id .G j (fun h => by cases h); simp only [St.space] at this; rw [this]; exact hx
+  | localToImport id uid => simp only [step]; rw [(localToImport_other s id uid).1]; exact hx
+  | replaceImport k uid c => simp only [step]; rw [(replaceImport_other s k uid c).1]; exact hx
+  | inject id sites =>
+    simp only [step, inject]
+    split
+    · exact hx
+    · split <;> exact hx
+  | addGlobal uid sites => simp only [step, addGlobal, Space.push]; exact getElem?_append_some _ _ _ _ hx
+  | addImportedGlobal uid =>
+    simp only [step, addImportedGlobal, addImport, St.space, St.setSpace, Space.push]; exact getElem?_append_some _ _ _ _ hx
+  | iterAddGlobal uid sites => simp only [step, iterAddGlobal, Space.push]; exact getElem?_append_some _ _ _ _ hx
+  | deleteGlobal id =>
+    simp only [step]; have := deleteEntity_slot s .G id .G j (fun _ => hs.1 id rfl); simp only [St.space] at this; rw [this]; exact hx
+  | modGlobalInit id sites =>
+    simp only [step, modGlobalInit]
+    split
+    · split <;> exact hx
+    · exact hx
+  | addLocalMem uid => exact hx
+  | addImportMem uid => simpa [step, addImportMem, addImport, St.space, St.setSpace, Space.push] using hx
+  | deleteMem id => simp only [step]; have := deleteEntity_slot s .M id .G j (fun h => by cases h); simp only [St.space] at this; rw [this]; exact hx
+  | addExport r => exact hx
+  | deleteExport i =>
+    simp only [step, deleteExport]
+    split <;> exact hx
+  | addData mem sites => exact hx
+  | encode => exact absurd rfl hs.2
+
+theorem step_slotM (s : St) (op : Op) (j : Nat) (x : Item) (hx : s.m.items[j]? = some x) (hs : Spares .M j x op) :
+    (step s op).1.m.items[j]? = some x := by
+  cases op with
+  | addLocalFunc uid sites => exact hx
+  | addImportFunc uid => simpa [step, addImportFunc, addImport, St.space, St.setSpace, Space.push] using hx
+  | deleteFunc id => simp only [step]; have := deleteEntity_slot s .F id .M j (fun h => by cases h); simp only [St.space] at this; rw [this]; exact hx
+  | localToImport id uid => simp only [step]; rw [(localToImport_other s id uid).2]; exact hx
+  | replaceImport k uid c => simp only [step]; rw [(replaceImport_other s k uid c).2]; exact hx
+  | inject id sites =>
+    simp only [step, inject]
+    split
+    · exact hx
+    · split <;> exact hx
+  | addGlobal uid sites => exact hx
+  | addImportedGlobal uid => simpa [step, addImportedGlobal, addImport, St.space, St.setSpace, Space.push] using hx
+  | iterAddGlobal uid sites => exact hx
+  | deleteGlobal id => simp only [step]; have := deleteEntity_slot s .G id .M j (fun h => by cases h); simp only [St.space] at this; rw [this]; exact hx
+  | modGlobalInit id sites =>
+    simp only [step, modGlobalInit]
+    split
+    · split <;> exact hx
+    · exact hx
+  | addLocalMem uid => simp only [step, addLocalMem, Space.push]; exact getElem?_append_some _ _ _ _ hx
+  | addImportMem uid =>
+    simp only [step, addImportMem, addImport, St.space, St.setSpace, Space.push]; exact getElem?_append_some _ _ _ _ hx
+  | deleteMem id =>
+    simp only [step]; have := deleteEntity_slot s .M id .M j (fun _ => hs.1 id rfl); simp only [St.space] at this; rw [this]; exact hx
+  | addExport r => exact hx
+  | deleteExport i =>
+    simp only [step, deleteExport]
+    split <;> exact hx
+  | addData mem sites => exact hx
+  | encode => exact absurd rfl hs.2
+
+theorem step_slot (s : St) (op : Op) (sp : Sp) (j : Nat) (x : Item) (hx : (s.space sp).items[j]? = some x) (hs : Spares sp j x op) :
+    ((step s op).1.space sp).items[j]? = some x := by
+  cases sp with
+  | F => exact step_slotF s op j x hx hs
+  | G => exact step_slotG s op j x hx hs
+  | M => exact step_slotM s op j x hx hs
+
+def Spared (sp : Sp) (j : Nat) (x : Item) (ops : List Op) : Prop := ∀ op ∈ ops, Spares sp j x op
+
+theorem run_slot (ops : List Op) : ∀ (s : St) (sp : Sp) (j : Nat) (x : Item), (s.space sp).items[j]? = some x → Spared sp j x ops →
+    ((run s ops).1.space sp).items[j]? = some x := by
+  induction ops with
+  | nil => intro s sp j x hx _; exact hx
+  | cons op ops ih =>
+    intro s sp j x hx hs
+    have h1 := step_slot s op sp j x hx (hs op (List.mem_cons_self ..))
+    simp only [run]
+    split
+    · exact h1
+    · exact ih _ sp j x h1 (fun o ho => hs o (List.mem_cons_of_mem _ ho))
+
+theorem Spared.noEncode {sp : Sp} {j : Nat} {x : Item} {ops : List Op} (h : Spared sp j x ops) : NoEncode ops := by
+  intro op ho e
+  subst e
+  have := h _ ho
+  cases sp with
+  | F => exact this
+  | G => exact this.2 rfl
+  | M => exact this.2 rfl
+
+/-- **An id keeps designating its entity.** If position `j` of the vector `sp` holds the entry `x` and the history spares it,
+    then after the history `encode` either fails loudly or every emitted reference of that index space whose stored id was `j`
+    designates `x.uid` in the encoded module (and every reference at all designates what its id designated). -/
+theorem encode_designates (s0 : St) (h0 : StInv s0) (sp : Sp) (j : Nat) (x : Item) (hx : (s0.space sp).items[j]? = some x)
+    (ops : List Op) (hs : Spared sp j x ops) :
+    let s := (run s0 ops).1
+    (∃ s' F G M res st, encode s = (s', Ret.encoded F G M res st)
+        ∧ (∀ r' ∈ res ++ st.toList, ∃ r ∈ allRefs s, r'.site = r.site ∧ r'.sp = r.sp
+            ∧ (∃ u, PointsTo s r u ∧ designated F G M r' = some u)
+            ∧ (r.sp = sp → r.idx = j → designated F G M r' = some x.uid)))
+    ∨ (∃ s' why, encode s = (s', Ret.panic why) ∧ ∃ r ∈ allRefs s, Dangling s r) := by
+  intro s
+  have hslot : (s.space sp).items[j]? = some x := run_slot ops s0 sp j x hx hs
+  have hinv := spaceInv_after s0 h0 ops hs.noEncode
+  rcases encode_spec s hinv.1 hinv.2.1 hinv.2.2 with ⟨s', F, G, M, res, st, he, hall⟩ | hp
+  · refine .inl ⟨s', F, G, M, res, st, he, ?_⟩
+    intro r' hr'
+    obtain ⟨r, hr, h1, h2, u, hpt, hd⟩ := hall r' hr'
+    refine ⟨r, hr, h1, h2, ⟨u, hpt, hd⟩, ?_⟩
+    intro hsp hidx
+    obtain ⟨item, hi, _, hu⟩ := hpt
+    rw [hsp, hidx, hslot] at hi
+    cases hi
+    rw [hd, hu]
+  · exact .inr hp
+
+/-! ### ids reported by the additions -/
+
+/-- the operations that add an entity: its index space and the entity -/
+def addedBy : Op → Option (Sp × Nat)
+  | .addLocalFunc uid _ => some (.F, uid)
+  | .addImportFunc uid => some (.F, uid)
+  | .addGlobal uid _ => some (.G, uid)
+  | .addImportedGlobal uid => some (.G, uid)
+  | .iterAddGlobal uid _ => some (.G, uid)
+  | .addLocalMem uid => some (.M, uid)
+  | .addImportMem uid => some (.M, uid)
+  | _ => none
+
+/-- the entity id an operation reports -/
+def reportedId : Ret → Option Nat
+  | .id n => some n
+  | .id2 n _ => some n
+  | _ => none
+
+/-- an addition reports the position at which it stores the new, live entity -/
+theorem added_slot (s : St) (op : Op) (sp : Sp) (uid : Nat) (h : addedBy op = some (sp, uid)) :
+    reportedId (step s op).2 = some (s.space sp).items.length
+    ∧ ∃ x, ((step s op).1.space sp).items[(s.space sp).items.length]? = some x ∧ x.uid = uid ∧ x.del = false
+        ∧ (x.imp = true → x.impId = s.imports.length) := by
+  cases op <;> simp only [addedBy, Option.some.injEq, Prod.mk.injEq, reduceCtorEq] at h <;> obtain ⟨rfl, rfl⟩ := h
+  all_goals simp [step, addLocalFunc, addImportFunc, addGlobal, addImportedGlobal, iterAddGlobal, addLocalMem, addImportMem,
+    addImport, St.space, St.setSpace, Space.push, mkItem, reportedId]
+
+theorem addedBy_ne_encode {op : Op} {p : Sp × Nat} (h : addedBy op = some p) : op ≠ .encode := by
+  intro e; subst e; simp [addedBy] at h
+
+/-- **The reported id designates the added item**, after any later history that spares it. -/
+theorem added_id_designates (s0 : St) (h0 : StInv s0) (op : Op) (sp : Sp) (uid : Nat) (hadd : addedBy op = some (sp, uid))
+    (ops : List Op)
+    (hs : ∀ x, ((step s0 op).1.space sp).items[(s0.space sp).items.length]? = some x → Spared sp (s0.space sp).items.length x ops) :
+    let n := (s0.space sp).items.length
+    let s := (run (step s0 op).1 ops).1
+    reportedId (step s0 op).2 = some n
+    ∧ ((∃ s' F G M res st, encode s = (s', Ret.encoded F G M res st)
+        ∧ (∀ r' ∈ res ++ st.toList, ∃ r ∈ allRefs s, r'.site = r.site ∧ r'.sp = r.sp
+            ∧ (∃ u, PointsTo s r u ∧ designated F G M r' = some u)
+            ∧ (r.sp = sp → r.idx = n → designated F G M r' = some uid)))
+      ∨ (∃ s' why, encode s = (s', Ret.panic why) ∧ ∃ r ∈ allRefs s, Dangling s r)) := by
+  intro n s
+  obtain ⟨hrep, x, hx, hu, _, _⟩ := added_slot s0 op sp uid hadd
+  refine ⟨hrep, ?_⟩
+  have h1 : StInv (step s0 op).1 := stInv_step s0 op (addedBy_ne_encode hadd) h0
+  have := encode_designates _ h1 sp n x hx ops (hs x hx)
+  rw [hu] at this
+  exact this
+
 end Orca.Edit
